@@ -1,6 +1,8 @@
 """Shard worker: runs islamon.checks.<pid>.run(ctx) and writes the verdict log."""
 import sys, os, json, time, random, importlib, hashlib, signal, traceback, warnings, logging
 
+import faulthandler
+faulthandler.enable()
 warnings.filterwarnings("ignore")
 logging.disable(logging.CRITICAL)
 sys.setrecursionlimit(10000)
@@ -34,6 +36,7 @@ class Ctx:
         self._viol_keys = {}
         self._last_hb = time.time()
         self.optimized = not __debug__
+        self.last_exc = None
         signal.signal(signal.SIGALRM, _alarm)
 
     # -- budget -----------------------------------------------------------
@@ -92,6 +95,7 @@ class Ctx:
             return "exc", e
         except Exception as e:
             signal.alarm(0)
+            self.last_exc = e
             return "exc", e
         finally:
             signal.alarm(0)
@@ -108,7 +112,7 @@ class Ctx:
         os.replace(tmp, p)
 
     def heartbeat(self):
-        if time.time() - self._last_hb > 5:
+        if time.time() - self._last_hb > 3:
             self._last_hb = time.time()
             self.dump(False, self.out + ".hb")
 
@@ -134,12 +138,85 @@ def main():
         print("replay verdict:", "violated" if ctx.violations else ("held" if ctx.judged else "inconclusive"),
               ctx.reasons)
         sys.exit(1 if ctx.violations else 0)
-    pid, tier, seed, shard, nshards, out, budget = sys.argv[1:8]
-    mod = importlib.import_module(f"islamon.checks.{pid.lower()}")
-    ctx = Ctx(pid, tier, int(seed), int(shard), int(nshards), out, float(budget))
-    random.seed(f"global-{seed}-{shard}")
-    mod.run(ctx)
-    ctx.dump(True)
+    if sys.argv[1] == "--child":
+        pid, tier, seed, shard, nshards, out, budget, attempt = sys.argv[2:10]
+        mod = importlib.import_module(f"islamon.checks.{pid.lower()}")
+        ctx = Ctx(pid, tier, int(seed), int(shard), int(nshards), out, float(budget))
+        if int(attempt):
+            ctx.rng = random.Random(f"{pid}-{seed}-{shard}-retry{attempt}")
+        random.seed(f"global-{seed}-{shard}-{attempt}")
+        mod.run(ctx)
+        try:
+            from islamon.ref import z3oracle
+            for k, v in z3oracle.STATS.items():
+                if v:
+                    ctx.count("z3oracle_" + k, v)
+        except Exception:
+            pass
+        ctx.dump(True)
+        return
+    supervise(*sys.argv[1:8])
+
+
+def merge(recs, complete, crashes):
+    out = {"complete": complete, "shard": recs[0]["shard"] if recs else 0, "evaluations": 0, "judged": 0, "shapes": set(),
+           "counters": {}, "inconclusive": {}, "samples": [], "violations": [], "wall_s": 0}
+    for r in recs:
+        out["evaluations"] += r["evaluations"]
+        out["judged"] += r["judged"]
+        out["shapes"].update(r["shapes"])
+        for k, v in r["counters"].items():
+            out["counters"][k] = out["counters"].get(k, 0) + v
+        for k, v in r["inconclusive"].items():
+            out["inconclusive"][k] = out["inconclusive"].get(k, 0) + v
+        out["samples"].extend(r["samples"])
+        out["violations"].extend(r["violations"])
+        out["wall_s"] += r["wall_s"]
+    out["shapes"] = sorted(out["shapes"])
+    if crashes:
+        out["counters"]["worker_crashes"] = len(crashes)
+        out["inconclusive"]["worker-crash"] = len(crashes)
+        out["crash_tails"] = crashes[:3]
+    return out
+
+
+def supervise(pid, tier, seed, shard, nshards, out, budget):
+    """runs the shard in a child process; a child killed by a signal (native crash in Z3/datrie) is replaced by a
+    fresh one with a new PRNG stream for the remaining budget; partial results come from the heartbeat file."""
+    import subprocess
+    t0 = time.time()
+    budget = float(budget)
+    recs, crashes = [], []
+    complete = False
+    for attempt in range(8):
+        left = budget - (time.time() - t0)
+        if attempt and left < 4:
+            break
+        cout = f"{out}.a{attempt}"
+        cmd = [sys.executable] + (["-O"] if not __debug__ else []) + ["-m", "islamon.worker", "--child", pid, tier, seed, shard,
+                                                                       nshards, cout, str(max(left, 1)), str(attempt)]
+        p = subprocess.run(cmd, stderr=subprocess.PIPE)
+        rec = None
+        for cand in (cout, cout + ".hb"):
+            if os.path.exists(cand):
+                try:
+                    rec = json.load(open(cand))
+                    break
+                except Exception:
+                    pass
+        if rec is not None:
+            recs.append(rec)
+        if p.returncode == 0 and rec is not None and rec.get("complete"):
+            complete = True
+            break
+        tail = p.stderr.decode("utf8", "replace")[-1200:]
+        crashes.append({"attempt": attempt, "rc": p.returncode, "tail": tail})
+        sys.stderr.write(f"[supervisor] shard {shard} attempt {attempt} rc={p.returncode}\n{tail}\n")
+        if p.returncode is not None and p.returncode > 0:
+            break  # a Python-level failure is a harness bug, not a native crash: do not mask it by retrying
+    with open(out + ".tmp", "w") as f:
+        json.dump(merge(recs, complete, crashes), f, default=str)
+    os.replace(out + ".tmp", out)
 
 
 if __name__ == "__main__":
